@@ -8489,7 +8489,10 @@ def aten_repeat_interleave_self_int(
 
 @torch_op("aten::repeat_interleave.Tensor", trace_only=True)
 def aten_repeat_interleave_Tensor(
-    self: TensorType, repeats: Optional[TensorType] = None, dim: Optional[int] = None
+    self: TensorType,
+    repeats: Optional[TensorType] = None,
+    dim: Optional[int] = None,
+    output_size: Optional[INT64] = None,  # pylint: disable=unused-argument
 ) -> TensorType:
     """repeat_interleave.Tensor(Tensor repeats, *, int? output_size=None) -> Tensor
 
